@@ -30,5 +30,10 @@ CLAIMED["C16"] = {
   "note": "Trusted: solvers (cvc5 primary for the decimal kernels), gosym encoding, the reference recogniser/serialiser; strconv and encoding/base64 are interpreted from their real SSA; strings.IndexAny is modelled for constant ASCII sets. Outside: longer inputs, integers of more digits other than the listed extremes (full-width decimal conversion is out of solver reach), lists with more than one member in the writer harness.",
 }
 
-NOT_APPLICABLE = {p: PENDING for p in ["C01","C02","C03","C04","C05","C06","C07","C08","C09","C10","C17","C18","C19"]}
+CLAIMED["C17"] = {
+  "text": "Bounded symbolic model checking of certurl: chains of 1..2 (quick) / 1..3 (thorough) certificates (real DER from the repo's test data so counterexamples replay against the real x509 parser; thorough also symbolic DER of 1/3/24 bytes under an idealised parser) with OCSP/SCT on every position from {nil, empty, 1, 2, 24, (256)} symbolic bytes: Write succeeds iff the first has OCSP and later ones none; output equals an independent canonical-CBOR encoding of [magic,{cert,ocsp?,sct?}...]; ReadCertChain(Write(c)) reproduces DER/OCSP/SCT byte-for-byte including nil-ness; ReadCertChain on structured inputs with every presence pattern of cert/ocsp/sct/unknown keys, wrong magic, wrong counts and unparseable certificates accepts exactly the valid chains. SerializeSCTList: 0..3 SCTs with lengths {0,1,2,65531,65533..65536}: error iff an element or the total exceeds 65535, otherwise a well-formed RFC 6962 vector with the SCTs in order.",
+  "note": "Trusted: solvers, gosym encoding, the reference CBOR writer and vector walker; x509.ParseCertificate idealised as an uninterpreted predicate of the DER bytes (real parser used in native replays). Outside: longer chains, other blob lengths (the CBOR head for every length is C11), duplicated map keys (last one wins in the reader; not claimed either way).",
+}
+
+NOT_APPLICABLE = {p: PENDING for p in ["C01","C02","C03","C04","C05","C06","C07","C08","C09","C10","C18","C19"]}
 NOT_APPLICABLE["C20"] = "command-line tools over processes, files, net/http, PEM/PKCS#8/X.509: cannot be encoded by the SSA executor within reach (reflection/unsafe/syscalls); its one pure kernel is net/url resolution over symbolic strings (concrete-only in this engine). Running the binaries would be testing, a different family. See DESIGN.md §6.1."
